@@ -118,7 +118,14 @@ def run_hist(histories, tag, go_bin, want_model=True):
     go = lib.read_obs(hp + ".go")
     ml = None
     if want_model:
-        rc, out = sh("%s < %s > %s.ml" % (os.path.join(ROOT, "ocaml", "driver"), hp, hp), timeout=1800)
+        # histories marked nomodel=1 (operations outside the model, judged by the oracle alone) are not given to the model
+        mp = hp + ".m"
+        with open(mp, "w") as f:
+            for h in histories:
+                t = h.text() if hasattr(h, "text") else h
+                if "nomodel=1" not in t.split("\n", 1)[0]:
+                    f.write(t)
+        rc, out = sh("%s < %s > %s.ml" % (os.path.join(ROOT, "ocaml", "driver"), mp, hp), timeout=1800)
         if rc:
             raise RuntimeError("model driver failed: " + out[-2000:])
         ml = lib.read_obs(hp + ".ml")
